@@ -44,6 +44,10 @@ pub struct VCase {
     pub offered: u64,
     pub policy: Serve,
     pub ops: Vec<VOp>,
+    /// 4096-byte receive buffers and a 4096-byte per-connection buffer, data packets of up to 2000
+    /// bytes (default: 512 / 256 / 100)
+    #[serde(default)]
+    pub big: bool,
 }
 
 struct MConn {
@@ -74,6 +78,16 @@ struct Run<'a> {
 impl WithT for Run<'_> {
     type Out = Result<(), String>;
     fn call<T: Transport + 'static>(self, t: T) -> Self::Out {
+        if self.c.big {
+            self.body::<T, 4096>(t, 4096, 2000)
+        } else {
+            self.body::<T, 512>(t, CAPACITY, 100)
+        }
+    }
+}
+
+impl Run<'_> {
+    fn body<T: Transport + 'static, const RX: usize>(self, t: T, capacity: u32, max_data: usize) -> Result<(), String> {
         let Run { c, dev, st } = self;
         macro_rules! g {
             ($what:expr, $e:expr) => {
@@ -86,14 +100,14 @@ impl WithT for Run<'_> {
                 }
             };
         }
-        let sock = match g!("VirtIOSocket::new", VirtIOSocket::<LHal, T>::new(t)) {
+        let sock = match g!("VirtIOSocket::new", VirtIOSocket::<LHal, T, RX>::new(t)) {
             Ok(s) => s,
             Err(e) => return Err(format!("VirtIOSocket::new failed: {:?}", e)),
         };
         if sock.guest_cid() != GUEST_CID {
             return Err(format!("guest_cid() = {:#x}", sock.guest_cid()));
         }
-        let mut mgr = VsockConnectionManager::new_with_capacity(sock, CAPACITY);
+        let mut mgr = VsockConnectionManager::new_with_capacity(sock, capacity);
         let settle = |dev: &Shared<VsockDev>| {
             for _ in 0..6 {
                 dev.turn_spin();
@@ -284,7 +298,7 @@ impl WithT for Run<'_> {
                     if *pop == 1 && !*bad_cid && expected_polls.iter().any(|(q, _)| q.op == 1 && (q.src_cid, q.src_port) == peer_a && q.dst_port == port_v && q.dst_cid == GUEST_CID) {
                         continue;
                     }
-                    let mut plen = if *pop == 5 { (*len as usize % 100) + 1 } else if *len % 8 == 7 { (*len as usize % 20) + 1 } else { 0 };
+                    let mut plen = if *pop == 5 { (*len as usize % max_data) + 1 } else if *len % 8 == 7 { (*len as usize % 20) + 1 } else { 0 };
                     if *pop == 5 {
                         // the peer honours the credit the driver advertised -- also for a connection
                         // that does not exist yet but may exist by the time the packet is polled,
@@ -293,7 +307,7 @@ impl WithT for Run<'_> {
                         let request_pending = expected_polls.iter().any(|(p, _)| p.op == 1 && same(p));
                         if idx.is_some() || request_pending {
                             let buffered = idx.map(|k| conns[k].buffered.len()).unwrap_or(0);
-                            let free = (CAPACITY as usize).saturating_sub(buffered + expected_polls.iter().filter(|(p, _)| p.op == 5 && same(p)).map(|(_, b)| b.len()).sum::<usize>());
+                            let free = (capacity as usize).saturating_sub(buffered + expected_polls.iter().filter(|(p, _)| p.op == 5 && same(p)).map(|(_, b)| b.len()).sum::<usize>());
                             plen = plen.min(free);
                             if plen == 0 {
                                 continue;
@@ -458,9 +472,9 @@ impl WithT for Run<'_> {
                     return Err(format!("{}: driver transmitted {:?}, expected ops {:?}", what, tx.iter().map(|p| (p.op, p.dst_cid, p.dst_port, p.src_port)).collect::<Vec<_>>(), want_tx.iter().map(|x| (x.0, x.1, x.2)).collect::<Vec<_>>()));
                 }
                 for (p, wnt) in tx.iter().zip(want_tx.iter()) {
-                    let ok = p.op == wnt.0 && (p.dst_cid, p.dst_port) == wnt.1 && p.src_port == wnt.2 && p.src_cid == GUEST_CID && p.payload == wnt.3 && p.len as usize == wnt.3.len() && p.flags == wnt.4 && p.ty == 1 && p.buf_alloc == CAPACITY;
+                    let ok = p.op == wnt.0 && (p.dst_cid, p.dst_port) == wnt.1 && p.src_port == wnt.2 && p.src_cid == GUEST_CID && p.payload == wnt.3 && p.len as usize == wnt.3.len() && p.flags == wnt.4 && p.ty == 1 && p.buf_alloc == capacity;
                     if !ok {
-                        return Err(format!("{}: transmitted packet {:?}, expected op {} to {:?} from port {} with {} payload bytes, flags {}, buf_alloc {}", what, p, wnt.0, wnt.1, wnt.2, wnt.3.len(), wnt.4, CAPACITY));
+                        return Err(format!("{}: transmitted packet {:?}, expected op {} to {:?} from port {} with {} payload bytes, flags {}, buf_alloc {}", what, p, wnt.0, wnt.1, wnt.2, wnt.3.len(), wnt.4, capacity));
                     }
                 }
             }
@@ -522,7 +536,7 @@ fn op() -> impl Strategy<Value = VOp> {
 }
 
 pub fn strategy() -> impl Strategy<Value = VCase> {
-    (drv::tk_strategy(), drv::feature_strategy(&[]), drv::serve_strategy(), prop::collection::vec(op(), 0..80)).prop_map(|(kind, offered, policy, ops)| VCase { kind, offered, policy, ops })
+    (drv::tk_strategy(), drv::feature_strategy(&[]), drv::serve_strategy(), prop::collection::vec(op(), 0..80), prop::bool::weighted(0.25)).prop_map(|(kind, offered, policy, ops, big)| VCase { kind, offered, policy, ops, big })
 }
 
 pub fn replay(_e: &str, case: &serde_json::Value) -> Result<(), String> {
